@@ -801,7 +801,7 @@ def compose_key(combo, use_data):
     return "Compose:product"
 
 
-def check_compose(ctx, rng, force=None, wide=False, shape=None):
+def check_compose(ctx, rng, force=None, wide=False, shape=None, call_rate=None):
     from tme.preprocessing import Compose
     shape = rand_shape(rng, lo=4, hi=10 if wide else 9) if shape is None else tuple(shape)
     data = rng.normal(size=shape)
@@ -822,7 +822,14 @@ def check_compose(ctx, rng, force=None, wide=False, shape=None):
         kw["data"] = data
     else:
         kw["data_rfft"] = rf
+    # the sampling rate may also be handed over at call time (it then overrides every filter's constructor value, for the
+    # stand-alone parts and for the composition alike)
+    sr_call = call_rate if call_rate is not None else (float(rng.choice([0.8, 2.5, 4.0])) if rng.random() < 0.4 else None)
+    if sr_call:
+        kw["sampling_rate"] = sr_call
     inp = {"kind": "compose", "shape": shape, "combo": list(combo), "use_data": use_data}
+    if sr_call:
+        inp["sampling_rate_at_call"] = sr_call
     parts = {c: np.asarray(build()[c](**dict(kw))["data"]) for c in combo}
     if len({parts[c].shape for c in combo}) != 1:
         ctx.spec("composition of multiplicative filters = product of its parts", inp, False,
@@ -844,7 +851,7 @@ def check_compose(ctx, rng, force=None, wide=False, shape=None):
     if len(combo) >= 3 and ok and not getattr(check_compose, "_sampled", False):
         check_compose._sampled = True
         ctx.sample({"what": "composition", **inp, "result.shape": out.shape, "max |Compose - product of parts|": detail["maxdiff"]})
-    ctx.count("compose:len=" + str(len(combo)) + (":data-kw" if use_data else ""))
+    ctx.count("compose:len=" + str(len(combo)) + (":data-kw" if use_data else "") + (":rate-at-call" if sr_call else ""))
     ctx.count("compose:first=" + CLS[combo[0]])
     ctx.distinct(("compose", shape, combo, use_data))
     if key == "Compose:product" and out is not None:
@@ -1010,7 +1017,8 @@ def replay(ctx, rec):
                 key, bad = wedge_known_key(ctx, full, want)
                 ctx.spec("symmetric under frequency negation", ii, key is None, {"asymmetric": bad[:6].tolist()}, key=key or "WedgeReconstructed:symmetry")
     elif kind == "compose":
-        check_compose(ctx, rng, force=tuple(inp["combo"]) + (("data",) if inp.get("use_data") else ()), shape=inp.get("shape"))
+        check_compose(ctx, rng, force=tuple(inp["combo"]) + (("data",) if inp.get("use_data") else ()), shape=inp.get("shape"),
+                      call_rate=inp.get("sampling_rate_at_call"))
     else:
         run(ctx)
 
